@@ -32,7 +32,7 @@ impl Method for SMA {
 		&&& self.value@ == SMA::def(self.window.view())
 	}
 	open spec fn rejects(parameters: PeriodType) -> bool { parameters == 0 }
-	open spec fn new_req(parameters: PeriodType, initial_value: &ValueType) -> bool { parameters < PeriodType::MAX }
+	open spec fn new_req(parameters: PeriodType, initial_value: &ValueType) -> bool { true }
 	open spec fn fresh(parameters: PeriodType, initial_value: &ValueType, s: &Self) -> bool {
 		s.window.view() =~= konst(parameters as nat, *initial_value) && s.value@ == initial_value@
 	}
